@@ -11,13 +11,24 @@ fn main() {
     let a = args();
     let mut s = Session::new(&a, "C02", COQ_HEADER, COQ_CASE_TY, COQ_CHECKER);
     s.shard_size = 120;
-    s.rule = "corpus (old witness D21, bottom-alignment println 951c29f, slot reuse, every insert variant, zombie reaped behind the head) + random histories over one MultiProgress on a recording terminal with 1..5 bars: add/insert/insert_from_back/insert_before/insert_after/remove/set_alignment/drop in every order, tick/inc/set_position/set_message/set_length/reset/force_draw, finish*/abandon*/finish_using_style, println (multi and member), suspend, clear; every ProgressFinish; widths 1..40; both alignments; gaps >= 1 ms (limiter exhaustion: see C03); + 3-thread stress runs judged by the frame oracle only + the re-add family (add/insert* of a bar that is already a member, documented as no effect; real API, order oracle only) + a two-thread race insert_after(&a, x) || remove(&a) (outcomes counted); non-trivial = at least 2 bars added and 5 ops; distinct = distinct case text".into();
+    s.rule = "corpus (old witness D21, bottom-alignment println 951c29f, slot reuse, every insert variant, zombie reaped behind the head) + random histories over one MultiProgress on a recording terminal with 1..5 bars: add/insert/insert_from_back/insert_before/insert_after/remove/set_alignment/drop in every order, tick/inc/set_position/set_message/set_length/reset/force_draw, finish*/abandon*/finish_using_style, println (multi and member), suspend, clear; every ProgressFinish; widths 1..40; both alignments; gaps >= 1 ms; + 60 cases with an EXHAUSTED 1/20 Hz refresh limiter in which finished members are updated again and dropped (every draw of a finished bar must be painted: classes finished-bar-update-not-painted/-stale); + 3-thread stress runs judged by the frame oracle only + the re-add family (add/insert* of a bar that is already a member, documented as no effect; real API, order oracle only) + a two-thread race insert_after(&a, x) || remove(&a) (outcomes counted); non-trivial = at least 2 bars added and 5 ops; distinct = distinct case text".into();
     let mut r = Rng::new(a.seed);
     let cfg = GenCfg::default_multi();
     let n = if a.thorough { 6000 } else if a.extended { 3000 } else { 500 };
     let mut cases = corpus();
     for _ in 0..n {
         cases.push(gen_multi_case(&mut r, &cfg));
+    }
+    // exhausted refresh limiter + updates of FINISHED members (then dropped): the gaps of the
+    // generic generator are >= 1 ms on an unlimited target, so it never reaches a refused draw;
+    // seeded change C02-3 (`force_draw |= is_finished()` removed) lives exactly there
+    let n_fin = if a.thorough { 600 } else if a.extended { 300 } else { 60 };
+    let first_fin = cases.len();
+    for _ in 0..n_fin {
+        cases.push(gen_finished_update_case(&mut r));
+    }
+    for c in &cases[first_fin..] {
+        finished_update_oracle(&mut s, c);
     }
     // kept rows of visibly finished, dropped bars are not checked here (C02: they "may instead remain"): C04/C19 check them
     run_sys_cases_mode(&mut s, &cases, &|c, _| c.ops.iter().filter(|(_, o)| matches!(o, Op::Insert(..))).count() >= 2 && c.ops.len() >= 5, false);
@@ -117,9 +128,20 @@ fn stale_index_race(s: &mut Session, rounds: u32) {
                 let mut vt = Vt::new(20, 50);
                 vt.feed(&spy.take());
                 let bars: Vec<String> = vt.rows().into_iter().filter(|r| !r.is_empty() && r != "log").collect();
-                if ok1 && with_add && bars.len() == 2 && bars[0].starts_with('Y') && bars[1].starts_with('X') {
+                let ids: String = bars.iter().filter_map(|r| r.chars().next()).collect();
+                // the outcomes of the sequential orders of the calls
+                let legal = match (ok1, with_add) {
+                    (true, true) => "XY",  // insert_after first: a, x; a removed; y added
+                    (true, false) => "X",
+                    (false, true) => "Y",  // remove first: insert_after panics in index().unwrap()
+                    (false, false) => "",
+                };
+                if ok1 && with_add && ids == "YX" {
                     misplaced += 1;
+                } else if ids == legal {
+                    other += 1;
                 } else {
+                    s.fail("stale-index-race-unexpected-order", format!("bars on the screen {bars:?} (insert_after ok: {ok1}, add(y): {with_add}); a sequential order of the calls gives {legal:?}"), format!("stale-index race round {round}"));
                     other += 1;
                 }
             }
@@ -293,6 +315,123 @@ fn readd_case(s: &mut Session, script: &[SOp]) {
     }
     let _ = catch(move || drop(keep));
     s.oracle_only(desc, script.len() >= 4);
+}
+
+/// A MultiProgress on a 1 Hz / 20 Hz terminal target whose burst allowance is used up (30 ticks at
+/// one instant); then, inside the rate-limit interval: some bars are finished (always painted),
+/// updated AGAIN while finished (set_message / set_length / tick / set_prefix / println /
+/// force_draw) and most of them dropped - the first one while it is the head of the list, so that
+/// its rows become kept rows; three seconds later the survivors tick.
+fn gen_finished_update_case(r: &mut Rng) -> Case {
+    let w = *r.pick(&[8u16, 12, 20, 40]);
+    let wu = w as usize;
+    let nb = r.range(2, 4) as usize;
+    let bars: Vec<BarInit> = (0..nb)
+        .map(|i| BarInit { len: Some(r.below(30)), fin: gen_fin_short(r, wu), tmpl: gen_small_tmpl(r, wu, i), target: TInit::Hidden })
+        .collect();
+    let mut ops: Vec<(u64, Op)> = (0..nb).map(|i| (0, Op::Insert(Loc::End, i))).collect();
+    let mut t = 1_000u64;
+    for k in 0..30 {
+        ops.push((t, Op::Tick(k % nb)));
+    }
+    let mut open: Vec<usize> = (0..nb).collect();
+    let rounds = r.range(1, nb as u64) as usize;
+    for _ in 0..rounds {
+        // mostly the head of the list first (its drop keeps rows), sometimes another bar
+        let k = if r.chance(3, 4) { 0 } else { r.below(open.len() as u64) as usize };
+        let b = open.remove(k);
+        t += 1_000;
+        ops.push((t, if r.chance(1, 4) { Op::FinishUsingStyle(b) } else { Op::Finish(b, gen_fin_short(r, wu)) }));
+        for _ in 0..r.range(1, 3) {
+            t += r.below(3) * 1_000;
+            ops.push((
+                t,
+                match r.below(7) {
+                    0 | 1 => Op::SetMsg(b, gen_short_text(r, wu)),
+                    2 => Op::SetLen(b, r.below(40)),
+                    3 => Op::Tick(b),
+                    4 => Op::SetPrefix(b, gen_short_text(r, 3)),
+                    5 => Op::ForceDraw(b),
+                    _ => Op::Println(b, gen_short_text(r, wu)),
+                },
+            ));
+        }
+        if r.chance(3, 4) {
+            t += 1_000;
+            ops.push((t, Op::Drop(b)));
+        }
+        if r.chance(1, 3) && !open.is_empty() {
+            t += 1_000;
+            ops.push((t, Op::Tick(*r.pick(&open)))); // refused: still inside the interval
+        }
+    }
+    t += 3_000_000_000;
+    for b in &open {
+        ops.push((t, Op::Tick(*b)));
+        t += 1_000;
+    }
+    Case { w, h: 60, fail_at: vec![], fail_from: None, mp: TInit::Term(Some(*r.pick(&[1u8, 20]))), bars, ops }
+}
+
+/// Clause 3c of C02 on the implementation (C02_interleaving: "a draw step of a finished bar is ONE
+/// MultiState::draw, forced and PAINTED", whatever the refresh limiter says): after finish* every
+/// call that draws the bar again (set_message, set_length, tick, set_prefix, println, force_draw)
+/// must reach the terminal, and the rows on the screen right after it must contain the rendering
+/// of the bar's current state.  Classes (predicates on the observation of that one call):
+/// `finished-bar-update-not-painted` (no TermLike call although the MultiProgress is visible and
+/// the bar is a finished member), `finished-bar-update-stale` (painted, but the bar's rows are not
+/// those of its current state).
+fn finished_update_oracle(s: &mut Session, case: &Case) {
+    let obs = run_case(case);
+    let desc = describe(case);
+    let mut vt = Vt::new(case.w, case.h);
+    let nb = case.bars.len();
+    let mut member = vec![false; nb];
+    let mut finished = vec![false; nb];
+    let mut checked = 0u64;
+    for ((_, op), o) in case.ops.iter().zip(obs.iter()) {
+        vt.feed(&o.emitted);
+        if let Some(p) = &o.panic {
+            s.fail("panic", p.clone(), desc.clone());
+            return;
+        }
+        let was_finished_member = op.bar().map_or(false, |b| member[b] && finished[b]);
+        let draws = matches!(op, Op::SetMsg(..) | Op::SetLen(..) | Op::Tick(_) | Op::SetPrefix(..) | Op::ForceDraw(_) | Op::Println(..));
+        if was_finished_member && draws {
+            let b = op.bar().unwrap();
+            checked += 1;
+            if o.emitted.is_empty() {
+                s.fail("finished-bar-update-not-painted", format!("{op:?} on the finished member #{b} reached no TermLike call (a draw of a finished bar is forced)"), desc.clone());
+                return;
+            }
+            if let Some(Some(g)) = o.getters.get(b) {
+                // finish_and_clear bars render nothing; otherwise every wrapped row of the rendering is on the screen, in order
+                let hidden = matches!(case.ops.iter().rev().find_map(|(_, x)| match x {
+                    Op::Finish(bb, f) if *bb == b => Some(f.clone()),
+                    _ => None,
+                }), Some(Fin::AndClear)) || (matches!(case.bars[b].fin, Fin::AndClear) && case.ops.iter().any(|(_, x)| matches!(x, Op::FinishUsingStyle(bb) if *bb == b)));
+                // the spinner glyph depends on the tick count, which the getters do not expose
+                if !hidden && !case.bars[b].tmpl.contains(&TPart::Spinner) {
+                    let want: Vec<String> = render_expected(&case.bars[b].tmpl, g).iter().flat_map(|l| wrap_rows(l, case.w as usize)).collect();
+                    let rows = vt.rows();
+                    let mut it = rows.iter();
+                    let all = want.iter().all(|x| it.any(|r| r.trim_end() == x.trim_end()));
+                    if !all {
+                        s.fail("finished-bar-update-stale", format!("after {op:?} the screen {rows:?} does not contain the rows {want:?} of the finished member #{b}"), desc.clone());
+                        return;
+                    }
+                }
+            }
+        }
+        match op {
+            Op::Insert(_, b) => member[*b] = true,
+            Op::Remove(b) | Op::Drop(b) => member[*b] = false,
+            Op::Finish(b, _) | Op::FinishUsingStyle(b) => finished[*b] = true,
+            Op::Reset(b) => finished[*b] = false,
+            _ => {}
+        }
+    }
+    s.count_n("finished_update_checks", checked);
 }
 
 fn corpus() -> Vec<Case> {
